@@ -369,6 +369,9 @@ Conservation == Inner = "spray" => \A b \in Cat : (meta[b].has /\ Attr[b].origin
 DistinctIds == \A x, y \in Cat : (x # y /\ st[x].known /\ st[y].known /\ Attr[x].origin = "app" /\ Attr[y].origin = "app"
                                     /\ Attr[x].tsg = Attr[y].tsg /\ Attr[x].tsg # 0) => st[x].seq # st[y].seq
 
+\* sensor-mule: a sensor node is handed a bundle only by direct delivery (checked where the steps are recorded)
+SensorsDirectOnly == (hist # <<>> /\ Algo \in {"mule", "mule_spray", "mule_binary_spray"}) => \A s \in LastExp.sends : s.p \in Sensors => s.direct
+
 SView == <<up, failing, st, meta, own, peerv, nbr, table, via, idk, used, late, aged, lateReg, steps>>
 Emit == (EmitMode = "final" /\ steps = MaxSteps) => PrintT(<<"TRACE", ToJson(hist)>>)
 =============================================================================
